@@ -29,6 +29,7 @@ type fsRunner struct {
 	fragBits uint32
 	syncMode bool
 	iters    map[string]*pogreb.ItemIterator
+	fsizes   []string // results of DB.FileSize, one per Count command
 }
 
 func (r *fsRunner) opts() *pogreb.Options {
@@ -136,6 +137,13 @@ func (r *fsRunner) exec(line string) string {
 		}
 		return fmt.Sprintf("has %d", b2i(ok))
 	case "count":
+		// DB.FileSize is an API result too: recorded at every Count and compared across the three
+		// shipped file systems (not with the harness file system, whose lock file is its own)
+		if sz, err := r.db.FileSize(); err != nil {
+			r.fsizes = append(r.fsizes, "error: "+errShort(err))
+		} else {
+			r.fsizes = append(r.fsizes, fmt.Sprint(sz))
+		}
 		return fmt.Sprintf("count %d", r.db.Count())
 	case "items":
 		it := r.db.Items()
@@ -318,6 +326,7 @@ func genC17(r *rng, tier string, res *Result) {
 		cases = append(cases, c)
 		impls = append(impls, impl)
 		// replay on the three shipped file systems
+		fileSizes := map[string][]string{}
 		want := map[int]string{}
 		for si, st := range c.Steps {
 			f := strings.Fields(st.Cmd)
@@ -356,10 +365,26 @@ func genC17(r *rng, tier string, res *Result) {
 					}
 				}
 				res.Tags["replays_on_"+fsc.name]++
+				fileSizes[fsc.name] = run.fsizes
 			}()
 			if run.db != nil {
 				run.db.Close()
 			}
+		}
+		for _, other := range []string{"os", "osmmap"} {
+			a, b := fileSizes["mem"], fileSizes[other]
+			if a == nil || b == nil {
+				continue
+			}
+			for k := 0; k < len(a) && k < len(b); k++ {
+				if a[k] != b[k] {
+					res.Findings = append(res.Findings, &Finding{Kind: "spec", Case: c.Name, Step: k, Cmd: fmt.Sprintf("FileSize() at the %d-th Count of the program", k+1),
+						Impl:     []string{"fs.mem: " + a[k], "fs." + other + ": " + b[k]},
+						Expected: []string{"the same result on every FileSystem implementation"}, Program: cmdsOf(c)})
+					break
+				}
+			}
+			res.Tags["file_size_results_compared"] += len(a)
 		}
 	}
 	runCases(res, cases, impls, !noModel)
